@@ -43,9 +43,9 @@ LEAN = {"module": "Pygom.Props.C02", "extra_modules": ["Pygom.Lemmas.Integrate"]
                      "Pygom.C02.row_at_requested_time", "Pygom.C02.repeated_times_equal_rows", "Pygom.C02.rows_translation_invariant",
                      "Pygom.C02.repeated_time_shortcut_counterexample"]}
 BUDGET = {"quick": {"fake": 240, "fake_sessions": 120, "models": 114, "catalogue": 20, "radau_every": 2, "cython": 1,
-                    "history": 48, "siblings": 30, "forms": 24, "entries_per_session": 5},
+                    "history": 48, "siblings": 30, "forms": 24, "entries_per_session": 5, "wide": 30, "scaled": 8},
           "thorough": {"fake": 4000, "fake_sessions": 2000, "models": 2280, "catalogue": 60, "radau_every": 4, "cython": 8,
-                       "history": 240, "siblings": 160, "forms": 100, "entries_per_session": 5}}
+                       "history": 240, "siblings": 160, "forms": 100, "entries_per_session": 5, "wide": 400, "scaled": 80}}
 RULE = ("fake-integrator cases: random entry point (integrateFuncJac, integrate2, _integrate2, integrate, solve_determ), "
         "1-4 states, dyadic x0/c/t0 (a quarter with t0 moved by +-738000, +-1e4, 2^20, -2^24; spacings down to 1/1024), grid kind (uniform, non-uniform incl. repeated/unsorted times, one point, scalar, empty, "
         "not-a-time, None), container (list/tuple/ndarray/int/float/np.float64), method in {None,lsoda,vode,ivode,dopri5,dop853, "
@@ -98,7 +98,18 @@ RULE = ("fake-integrator cases: random entry point (integrateFuncJac, integrate2
         "scipy.integrate.ode based entry points on a zero-length step is tagged, not judged). A session is non-trivial when every "
         "reference moved by >1e-3, at least one solve was judged and (history, siblings) at least one changed configuration has a "
         "reference differing by >1e-3 from the first one's. Sessions sit near the origin or (30 %) far from it (tbase +-738000, +-1e4, 1e6, "
-        "-1e6, -123456.5); a quarter of their generated models are first order in the states, a fifth time-dependent")
+        "-1e6, -123456.5); a quarter of their generated models are first order in the states, a fifth time-dependent. "
+        "WIDE-RATIO GRIDS (round d; `wide` runtime cases, t0 in {0, 1/2, -1, 3}, generated models of 8 families, every non-stiff catalogue "
+        "member and the scaled ones, all 43 configurations): log-spaced t0 + T 10^linspace(-d, 0, n) with d in {3, 4, 5, 6, 8, 10}, n = 5..25 "
+        "(ratio longest gap / first gap 1e2 .. 1e11); a first time T 10^-d after t0 followed by n uniform times; a fine burst T 10^-d (1, 2, 3) "
+        "followed by uniform times; every sixth case the stiff catalogue member Robertson on its DOCUMENTED grid 4*logspace(-6, e, n), "
+        "e in {2, 4, 6}, n in {13, 25, 37, 61} (e = 2: odeint / lsoda / bdf entry points; e > 2: the odeint-based entry points integrate "
+        "and solve_determ only - the documentation and the repository's tests run `integrate` there; the ode-based ones give up with "
+        "IntegrationError at nsteps = 10000, rtol = 1e-10 on the unchanged tree) - tags wide-grid:*, gap-ratio:1e<k>. "
+        "SCALES (`scaled` catalogue, on the ordinary and on the wide grids): the catalogue equations on head counts (SIR N = 1e6, 1e8; SEIR "
+        "N = 1e7; SIR_norm with a mass-action rate of 5e-9 per person) and on tiny fractions (SIR_norm with I0 = 1e-4, 1e-6); acceptance "
+        "|row - ref| <= acc (floor + |ref|) with floor = 1 except for the tiny-valued members (floor = 1e-4, 1e-5: relative per entry down to "
+        "the smallest component of interest; acc = max(1e-6, 20 x the error of scipy's own solver on the instance in that metric))")
 ASSUMPTIONS = ["PARTIAL: scipy's integrators (odeint; ode: lsoda/vode/dopri5/dop853) approximate the flow within tolerance - a "
                "hypothesis of the Lean theorems (Laws S: identity + semigroup of an ideal flow), validated on every run: "
                "|row - ref| <= 1e-6 (1+|ref|) against solve_ivp DOP853 rtol=atol=1e-12 (Radau cross-check <= 1e-8 on a subset)",
@@ -524,6 +535,119 @@ def gen_catalogue(rng, i, radau):
             "radau": bool(radau)}
 
 
+
+# ------------------------------------------------------------------------------------------------
+# round d: WIDE-RATIO GRIDS and SCALES
+#
+# `rows_correct` quantifies over every list of times: the rows are the flow at each requested time whatever the gaps between
+# the times are.  The grids above have gap ratios below ~64 (or single few-ulp steps); output grids used in practice often span
+# many decades - log-spaced sampling of a stiff system (the catalogue's own documented grid for Robertson: 4*logspace(-6, 6, n)),
+# a first observation just after t0 followed by daily points, a fine burst followed by coarse sampling.  Anything that ties the
+# solver's internal step to ONE of the gaps (seeded change C02-d1: hmax = first gap, so that lsoda exhausts mxstep inside a later,
+# 1e4 times longer interval and odeint hands out stale rows with a warning only) shows only there.
+#   log        t0 + T 10^linspace(-d, 0, n)                    d in 3 .. 10, n in 5 .. 25        (ratio last gap / first gap ~ 10^d)
+#   early      t0 + T 10^-d, then t0 + T j/k  (j = 1..k)       a first observation just after t0, then uniform
+#   burst      t0 + T 10^-d (1, 2, 3), then t0 + T j/k         a fine burst, then coarse
+#   doc        the documented grid of the stiff catalogue member: 4*logspace(-6, e, n), e in {2, 4, 6}   (t0 = 0)
+# t0 is near the origin (0, 1/2, -1, 3): at t0 = 3 a first gap of 1e-10 is still 2e5 ulps long.
+# SCALES.  The same catalogue equations with head counts (N = 1e6, 1e8; per-capita rate beta/N ~ 1e-9) and with tiny fractions
+# (I0 = 1e-4 .. 1e-6 of a unit population).  The acceptance |row - ref| <= acc (floor + |ref|) is relative per entry down to
+# `floor`: 1 for the ordinary cases, the size of the smallest component of interest for the tiny-valued ones; there the
+# solver's own ABSOLUTE tolerance (odeint 1.5e-8, ode 1e-10) is what limits the accuracy, so acc is 20 x the error of scipy's own
+# solver on the instance in the same metric (measured without pygom), at least TOL.
+# ------------------------------------------------------------------------------------------------
+WIDE_KINDS = [("log", 6), ("early", 4), ("burst", 2)]
+WIDE_DECADES = [3, 4, 5, 5, 6, 6, 8, 10]
+WIDE_FAMILIES = ["general", "general", "general-time", "tiny-model", "chain", "inflow", "timecoef", "mixed"]
+
+
+def wide_grid(t0, T, w):
+    """the float grid of a wide-ratio case (deterministic in the case)"""
+    d, n = int(w["decades"]), int(w["n"])
+    if w["kind"] == "log":
+        g = [t0 + T * 10.0 ** (-d + d * j / (n - 1.0)) for j in range(n)]
+    elif w["kind"] == "early":
+        g = [t0 + T * 10.0 ** -d] + [t0 + T * (j + 1.0) / n for j in range(n)]
+    elif w["kind"] == "burst":
+        g = [t0 + T * 10.0 ** -d * j for j in (1, 2, 3)] + [t0 + T * (j + 1.0) / n for j in range(n)]
+    elif w["kind"] == "doc":
+        g = [t0 + 4.0 * 10.0 ** (-6 + (6 + d) * j / (n - 1.0)) for j in range(n)]       # 4*logspace(-6, d, n)
+    else:
+        raise ValueError(w["kind"])
+    out = []
+    for v in g:
+        if v > t0 and (not out or v > out[-1]):
+            out.append(float(v))
+    return out
+
+
+def gap_ratio(t0, grid):
+    gaps = [b - a for a, b in zip([t0] + list(grid), grid) if b > a]
+    return max(gaps) / gaps[0] if gaps else 1.0
+
+
+def scaled_catalogue():
+    """catalogue equations at other SCALES: head counts (N = 1e6, 1e8 with per-capita rates beta/N down to 5e-9) and tiny fractions"""
+    S, I, R, Ex, Nn = V("S"), V("I"), V("R"), V("E"), V("N")
+    beta, gamma, alpha = V("beta"), V("gamma"), V("alpha")
+    inf = E.div(_m(beta, S, I), Nn)
+    sir = _ode_spec(["S", "I", "R"], ["beta", "gamma", "N"], [E.neg(inf), E.sub(inf, _m(gamma, I)), _m(gamma, I)])
+    seir = _ode_spec(["S", "E", "I", "R"], ["beta", "alpha", "gamma", "N"],
+                     [E.neg(inf), E.sub(inf, _m(alpha, Ex)), E.sub(_m(alpha, Ex), _m(gamma, I)), _m(gamma, I)])
+    norm = _ode_spec(["S", "I", "R"], ["beta", "gamma"], [E.neg(_m(beta, S, I)), E.sub(_m(beta, S, I), _m(gamma, I)), _m(gamma, I)])
+    cat = []
+    cat.append(dict(name="SIR:N=1e6", fn="SIR", spec=sir, params={"beta": "1/2", "gamma": "1/5", "N": "1000000"},
+                    x0=["999000", "1000", "0"], T=40, hi=1e7, scale="head-count"))
+    cat.append(dict(name="SIR:N=1e8", fn="SIR", spec=sir, params={"beta": "3/5", "gamma": "1/4", "N": "100000000"},
+                    x0=["99990000", "10000", "0"], T=50, hi=1e9, scale="head-count"))
+    cat.append(dict(name="SEIR:N=1e7", fn="SEIR", spec=seir, params={"beta": "9/5", "alpha": "1/2", "gamma": "1/5", "N": "10000000"},
+                    x0=["9990000", "5000", "5000", "0"], T=20, hi=1e8, scale="head-count"))
+    # mass action on head counts: the per-capita transmission rate is 5e-9 per person and day
+    cat.append(dict(name="SIR_norm:beta=5e-9", fn="SIR_norm", spec=norm, params={"beta": "1/200000000", "gamma": "1/5"},
+                    x0=["99990000", "10000", "0"], T=40, hi=1e9, scale="head-count"))
+    cat.append(dict(name="SIR_norm:I0=1e-4", fn="SIR_norm", spec=norm, params={"beta": "1/2", "gamma": "1/5"},
+                    x0=["9999/10000", "1/10000", "0"], T=30, floor=1e-4, scale="tiny"))
+    cat.append(dict(name="SIR_norm:I0=1e-6", fn="SIR_norm", spec=norm, params={"beta": "3/5", "gamma": "1/5"},
+                    x0=["999999/1000000", "1/1000000", "0"], T=20, floor=1e-5, scale="tiny"))
+    return cat
+
+
+def catalogue_entry(name):
+    return [c for c in catalogue() + scaled_catalogue() if c["name"] == name][0]
+
+
+def gen_wide(rng, i, radau):
+    """a runtime case (generated model or catalogue model) on a wide-ratio grid"""
+    w = {"kind": gen.wchoice(rng, WIDE_KINDS), "decades": rng.choice(WIDE_DECADES), "n": rng.randint(5, 25)}
+    if w["kind"] != "log":
+        w["n"] = rng.randint(2, 12)
+    t0 = rng.choice(T0_NEAR)
+    which = i % 6
+    if which == 0:          # the stiff catalogue member on its documented grid
+        w = {"kind": "doc", "decades": rng.choice([2, 4, 6, 6]), "n": rng.choice([13, 25, 37, 61])}
+        return {"kind": "catalogue", "name": "Robertson", "params": {}, "x0": ["1", "0", "0"], "t0": "0", "stiff": True, "fracs": [], "hscale": "1",
+                "gridmods": [], "grid_kind": "wide", "wide": w, "container": rng.choice(["list", "ndarray"]), "radau": False,
+                "entries": "odeint" if w["decades"] > 2 else "all"}
+    if which in (1, 2):
+        cat = [c for c in catalogue() if not c.get("stiff")] + scaled_catalogue()
+        ent = cat[rng.randrange(len(cat))]
+        return {"kind": "catalogue", "name": ent["name"], "params": ent["params"], "x0": ent["x0"], "t0": t0, "stiff": False, "fracs": [], "hscale": "1",
+                "gridmods": [], "grid_kind": "wide", "wide": w, "container": rng.choice(["list", "ndarray"]), "radau": bool(radau)}
+    case = gen_runtime_model(rng, i, radau, family=rng.choice(WIDE_FAMILIES))
+    case.update({"t0": t0, "hscale": "1", "gridmods": [], "grid_kind": "wide", "wide": w})
+    return case
+
+
+def gen_scaled(rng, i, radau):
+    """head-count / tiny-valued catalogue members on the ordinary grids"""
+    cat = scaled_catalogue()
+    ent = cat[i % len(cat)]
+    case = gen_catalogue(rng, 0, radau)
+    case.update({"name": ent["name"], "params": ent["params"], "x0": ent["x0"], "stiff": False, "t0": rng.choice(T0_NEAR), "hscale": "1",
+                 "gridmods": [m for m in case["gridmods"] if m["op"] in ("repeat", "one")]})
+    return case
+
+
 def make_cases(rng, tier, budget):
     cases = []
     for i in range(budget["fake"]):
@@ -541,6 +665,12 @@ def make_cases(rng, tier, budget):
         if i < budget.get("cython", 0):
             cases[-1]["backend"] = "cython"      # pygom's default compile back-end (seconds of gcc per evaluator)
     cases += session_cases(rng, budget)
+    # round d (drawn after everything above: the earlier families are unchanged): wide-ratio grids, scales
+    off2 = rng.randrange(6)
+    for i in range(budget.get("wide", 0)):
+        cases.append(gen_wide(random.Random(rng.getrandbits(64)), off2 + i, i % 4 == 0))
+    for i in range(budget.get("scaled", 0)):
+        cases.append(gen_scaled(random.Random(rng.getrandbits(64)), off2 + i, i % 4 == 0))
     return cases
 
 
@@ -569,6 +699,7 @@ def search_cases(rng, tier, budget):
     for i in range(budget["models"] * 3):
         out.append(gen_runtime_model(random.Random(rng.getrandbits(64)), i, False))
     out += session_cases(rng, budget, factor=2)
+    out += [gen_wide(random.Random(rng.getrandbits(64)), i, False) for i in range(budget.get("wide", 0) * 2)]
     return out
 
 
@@ -946,7 +1077,7 @@ def fd_jac(f, t, x):
     return J
 
 
-def reference(f, x0, t0, grid, radau, direct_grid=None):
+def reference(f, x0, t0, grid, radau, direct_grid=None, hi=1e3, floor=1.0):
     """returns (ref rows at grid, info) or (None, reason); grid strictly ascending, after t0"""
     from scipy.integrate import solve_ivp
     import warnings
@@ -959,7 +1090,7 @@ def reference(f, x0, t0, grid, radau, direct_grid=None):
         if s.status != 0 or s.y.shape[1] != len(grid) or not np.all(np.isfinite(s.y)):
             return None, "reference-failed"
         ref = s.y.T
-        if np.max(np.abs(ref)) > 1e3:
+        if np.max(np.abs(ref)) > hi:
             return None, "reference-blows-up"
         # conditioning: bound on the amplification of local errors, exp(int max(mu_2(J(x(t))),0) dt)
         tt = np.linspace(t0, grid[-1], 41)
@@ -974,9 +1105,9 @@ def reference(f, x0, t0, grid, radau, direct_grid=None):
         amp = math.exp(min(700.0, float(np.trapezoid(mus, tt))))
         info = {"amp": amp, "stiff": float(np.trapezoid(nrm, tt))}
         if direct_grid is None:
-            info["direct"] = direct_solver_error(f, x0, t0, grid, ref)
+            info["direct"] = direct_solver_error(f, x0, t0, grid, ref, floor)
         elif direct_grid:
-            info["direct"] = direct_solver_error(f, x0, t0, direct_grid, np.array([ref[grid.index(t)] for t in direct_grid]))
+            info["direct"] = direct_solver_error(f, x0, t0, direct_grid, np.array([ref[grid.index(t)] for t in direct_grid]), floor)
         else:
             info["direct"] = {"default": 0.0, "1e-10": 0.0}
         if radau:
@@ -986,14 +1117,14 @@ def reference(f, x0, t0, grid, radau, direct_grid=None):
                 return None, "radau-raised:%s" % type(exc).__name__
             if s2.status != 0:
                 return None, "radau-failed"
-            d = np.max(np.abs(s2.y.T - ref) / (1.0 + np.abs(ref)))
+            d = np.max(np.abs(s2.y.T - ref) / (floor + np.abs(ref)))
             info["radau_dev"] = float(d)
             if d > 1e-8:
                 return None, "references-disagree"
     return ref, info
 
 
-def reference_any(f, x0, t0, grid, radau, stiff=False):
+def reference_any(f, x0, t0, grid, radau, stiff=False, hi=1e3, floor=1.0):
     """reference rows for ANY ascending grid: repeated times get the same row, a time equal to t0 gets x0; the integration itself
     runs on the distinct times after t0.  scipy's own odeint (`direct`) is asked for the distinct times that are more than 4 ulps
     after t0: lsoda refuses a first output closer than that ("tout too close to t to start integration") and odeint then returns
@@ -1010,7 +1141,7 @@ def reference_any(f, x0, t0, grid, radau, stiff=False):
     if stiff:
         ref, info = reference_stiff(f, x0, t0, uniq)
     else:
-        ref, info = reference(f, x0, t0, uniq, radau, direct_grid=far if close else None)
+        ref, info = reference(f, x0, t0, uniq, radau, direct_grid=far if close else None, hi=hi, floor=floor)
     if ref is None:
         return None, info
     rows = dict(zip(uniq, ref))
@@ -1037,7 +1168,7 @@ def reference_stiff(f, x0, t0, grid):
     return ref, info
 
 
-def direct_solver_error(f, x0, t0, grid, ref):
+def direct_solver_error(f, x0, t0, grid, ref, floor=1.0):
     """scaled error of scipy's own odeint on the Lean right-hand side (no pygom involved), at the default
     tolerance pygom's `integrate` uses and at the 1e-10 of `integrateFuncJac`: how well the ASSUMPTION
     'the solver approximates the flow' holds on this very instance"""
@@ -1048,13 +1179,13 @@ def direct_solver_error(f, x0, t0, grid, ref):
             y, o = odeint(lambda x, t: f(t, x), x0, np.append(t0, grid), mxstep=10000, full_output=True, **kw)
             # odeint does not raise when lsoda refuses or gives up: it returns uninitialised rows (often zeros, often not) and says
             # so in its message only
-            out[key] = float(np.max(np.abs(y[1:] - ref) / (1.0 + np.abs(ref)))) if o["message"] == "Integration successful." else float("inf")
+            out[key] = float(np.max(np.abs(y[1:] - ref) / (floor + np.abs(ref)))) if o["message"] == "Integration successful." else float("inf")
         except Exception:
             out[key] = float("inf")
     return out
 
 
-def scipy_ode_unreliable(f, x0, t0, grid, method, ref=None, full_output=False):
+def scipy_ode_unreliable(f, x0, t0, grid, method, ref=None, full_output=False, floor=1.0, acc=TOL):
     """does scipy's own `ode` integrator (pygom's tolerances, the Lean right-hand side with a finite-difference Jacobian - no pygom
     involved) fail or lose accuracy on this instance?  Asked only when pygom raised IntegrationError or returned rows off the
     reference.  The integrator documented for `method` steps through the grid once as ONE object and once freshly created at every
@@ -1078,7 +1209,7 @@ def scipy_ode_unreliable(f, x0, t0, grid, method, ref=None, full_output=False):
         if ref is None:
             return False
         a = np.array(rows, dtype=float)
-        return not np.all(np.isfinite(a)) or bool(np.max(np.abs(a - ref) / (1.0 + np.abs(ref))) > TOL / 10)
+        return not np.all(np.isfinite(a)) or bool(np.max(np.abs(a - ref) / (floor + np.abs(ref))) > acc / 10)
     try:
         with warnings.catch_warnings():
             warnings.simplefilter("ignore")
@@ -1140,7 +1271,7 @@ def bucket(r):
     return "<=1e%d" % int(math.ceil(math.log10(r)))
 
 
-def judge(sig, sol, ref, x0, grid, origin, viol, margins, key, acc=TOL):
+def judge(sig, sol, ref, x0, grid, origin, viol, margins, key, acc=TOL, floor=1.0):
     """the property on one returned array: row count, origin row, order/accuracy (|row - ref| <= acc (1+|ref|))"""
     if not np.isfinite(acc):
         return          # scipy's own odeint reports failure on this instance: the odeint-based entry points are not judged
@@ -1156,15 +1287,15 @@ def judge(sig, sol, ref, x0, grid, origin, viol, margins, key, acc=TOL):
                          "signature": sig + ":origin-row", "detail": ""})
             return
         a = a[1:]
-    err = np.abs(a - ref) / (acc * (1.0 + np.abs(ref)))
+    err = np.abs(a - ref) / (acc * (floor + np.abs(ref)))
     worst = float(np.max(err)) if err.size else 0.0
     margins[key] = max(margins.get(key, 0.0), worst * acc / TOL)
     if not np.all(np.isfinite(a)) or worst > 1.0:
         i = int(np.argmax(np.max(err, axis=1)))
         what = "accuracy"
-        if len(grid) >= 2 and np.all(np.abs(a - ref[-1]) <= acc * (1.0 + np.abs(ref[-1]))) and np.max(np.abs(ref[0] - ref[-1])) > 1e-4:
+        if len(grid) >= 2 and np.all(np.abs(a - ref[-1]) <= acc * (floor + np.abs(ref[-1]))) and np.max(np.abs(ref[0] - ref[-1]) / (floor + np.abs(ref[-1]))) > 1e-4:
             what = "rows-equal-final-state"
-        elif len(grid) >= 2 and any(np.all(np.abs(a[i] - ref[j]) <= acc * (1.0 + np.abs(ref[j]))) for j in range(len(grid)) if grid[j] != grid[i]):
+        elif len(grid) >= 2 and any(np.all(np.abs(a[i] - ref[j]) <= acc * (floor + np.abs(ref[j]))) for j in range(len(grid)) if grid[j] != grid[i]):
             what = "row-order"
         viol.append({"what": "%s: row for t=%r is %s, the ODE solution there is %s (%s)" % (sig, grid[i], [float(v) for v in a[i]], [float(v) for v in ref[i]], what),
                      "signature": sig + ":" + what,
@@ -1177,9 +1308,9 @@ def run_runtime(case):
     tags, mism, viol = [], [], []
     if case["kind"] == "catalogue":
         from pygom import common_models
-        ent = [c for c in catalogue() if c["name"] == case["name"]][0]
+        ent = catalogue_entry(case["name"])
         spec = ent["spec"]
-        model = getattr(common_models, case["name"])()
+        model = getattr(common_models, ent.get("fn", case["name"]))()
         from .. import bootstrap
         if case.get("backend", "lambda") == "lambda":
             bootstrap.fast_backend(model)
@@ -1203,7 +1334,16 @@ def run_runtime(case):
     x0 = np.array([float(Fraction(v)) for v in case["x0"]])
     t0 = float(Fraction(case["t0"]))
     hs = float(Fraction(case.get("hscale", "1")))
-    if case["kind"] == "catalogue" and "grid" in case:
+    hi, floor = 1e3, 1.0
+    if case["kind"] == "catalogue":
+        hi, floor = float(ent.get("hi", 1e3)), float(ent.get("floor", 1.0))
+        if ent.get("scale"):
+            tags.append("scale:%s" % ent["scale"])
+    if case.get("wide") and case["wide"]["kind"] == "doc":
+        grid = wide_grid(t0, 1.0, case["wide"])
+    elif case["kind"] == "catalogue" and case.get("wide"):
+        grid = wide_grid(t0, float(ent["T"]), case["wide"])
+    elif case["kind"] == "catalogue" and "grid" in case:
         grid = [float(Fraction(v)) for v in case["grid"]]          # explicit grid (older corpus cases)
     elif case["kind"] == "catalogue":
         grid = [t0 + hs * float(ent["T"]) * float(Fraction(v)) for v in case["fracs"]]
@@ -1216,7 +1356,7 @@ def run_runtime(case):
             return {"nontrivial": False, "mismatches": mism, "violations": viol, "tags": tags + ["rejected:rhs-undefined-at-x0"]}
         T = min(float(case["Tmax"]), 2.0 / L) if L > 0 else float(case["Tmax"])
         T = float(Fraction(T).limit_denominator(1024)) or 1.0 / 1024
-        grid = [t0 + hs * T * float(Fraction(v)) for v in case["fracs"]]
+        grid = wide_grid(t0, T, case["wide"]) if case.get("wide") else [t0 + hs * T * float(Fraction(v)) for v in case["fracs"]]
     grid = apply_gridmods(t0, grid, case.get("gridmods", []))
     if any(b < a for a, b in zip([t0] + grid, grid)):
         raise ValueError("generator: the grid is not ascending")
@@ -1232,6 +1372,9 @@ def run_runtime(case):
     if degenerate_steps(t0, grid):
         tags.append("grid-has-zero-or-few-ulp-step")
     tags.append("grid=%s" % case["grid_kind"])
+    if case.get("wide"):
+        gr = gap_ratio(t0, grid)
+        tags += ["wide-grid:%s" % case["wide"]["kind"], "gap-ratio:1e%d" % int(math.floor(math.log10(max(gr, 1.0))))]
     tags.append("family=%s" % case.get("family", case["kind"]))
     tags.append("t0=%s" % ("far:%s" % ("+" if t0 > 0 else "-") if abs(t0) >= 1e4 else "near"))
     tags.append("horizon=%s" % ("tiny" if hs < 1 else "long" if hs > 1 else "normal"))
@@ -1254,12 +1397,20 @@ def run_runtime(case):
             tags.append("linear_ode()=True")
     except Exception:
         pass
-    ref, info = reference_any(f, x0, t0, grid, case.get("radau"), stiff=stiff)
+    ref, info = reference_any(f, x0, t0, grid, case.get("radau"), stiff=stiff, hi=hi, floor=floor)
     if ref is None:
         return {"nontrivial": False, "mismatches": mism, "violations": viol, "tags": tags + ["rejected:%s" % info]}
     if case["kind"] == "model" and info["amp"] > AMP_MAX:
         return {"nontrivial": False, "mismatches": mism, "violations": viol, "tags": tags + ["rejected:ill-conditioned"]}
-    if info["direct"]["1e-10"] > TOL / 100:
+    acc_ode = TOL
+    if floor < 1.0:
+        # relative down to `floor`: the solver's ABSOLUTE tolerance (1e-10) limits the accuracy of the small components; the acceptance
+        # is 20 x the error of scipy's own solver at pygom's tolerances on this instance, in the same metric (at least TOL, at most 1e-3)
+        acc_ode = max(TOL, 20.0 * info["direct"]["1e-10"])
+        if not acc_ode <= 1e-3:
+            return {"nontrivial": False, "mismatches": mism, "violations": viol, "tags": tags + ["rejected:solver-inaccurate-at-1e-10"]}
+        tags.append("floor=%g:ode-acceptance=%s" % (floor, "1e-6" if acc_ode == TOL else "20x-direct-solver-error"))
+    elif info["direct"]["1e-10"] > TOL / 100:
         return {"nontrivial": False, "mismatches": mism, "violations": viol, "tags": tags + ["rejected:solver-inaccurate-at-1e-10"]}
     # pygom's `integrate` runs odeint at scipy's default tolerance (1.49e-8): on instances where scipy's own odeint,
     # on the Lean right-hand side, is itself further than TOL/20 from the reference the acceptance is 20 x that error
@@ -1303,10 +1454,11 @@ def run_runtime(case):
         sol = res[0] if has_output else res
         r = ref if g is grid else ref[-1:]
         nv = len(viol)
-        judge(sig, sol, r, x0, g, origin, viol, margins, sig.split(":")[0], acc_odeint if "method=odeint" in sig else TOL)
+        judge(sig, sol, r, x0, g, origin, viol, margins, sig.split(":")[0], acc_odeint if "method=odeint" in sig else acc_ode, floor=floor)
         if len(viol) > nv and "method=odeint" not in sig and viol[-1]["signature"].split(":")[-1] in ("accuracy", "row-order", "rows-equal-final-state"):
             # before a wrong row is reported: is scipy's own integrator (no pygom) right on this very instance?
-            why = scipy_ode_unreliable(f, x0, t0, g, sig_method(sig), ref=r, full_output="full_output=True" in sig or sig.startswith("integrate2"))
+            why = scipy_ode_unreliable(f, x0, t0, g, sig_method(sig), ref=r, full_output="full_output=True" in sig or sig.startswith("integrate2"),
+                                       floor=floor, acc=acc_ode)
             if why:
                 del viol[nv:]
                 margins.pop(sig.split(":")[0], None)
@@ -1326,7 +1478,13 @@ def run_runtime(case):
         call("integrate:method=odeint:full_output=%s" % fo, lambda: model.integrate(tg, full_output=fo), True, grid, has_output=fo)
         fresh()
         call("solve_determ:method=odeint:full_output=%s" % fo, lambda: model.solve_determ(tg, full_output=fo), True, grid)
-    for m in ((None, "lsoda", "ivode") if stiff else METHODS):    # explicit / Adams integrators are not meant for stiff systems
+    odeint_only = case.get("entries") == "odeint"
+    if odeint_only:
+        # the documented Robertson grid out to t = 4e6: what the documentation and the repository's tests run there is `integrate`
+        # (odeint); the scipy.integrate.ode based entry points give up with IntegrationError (nsteps = 10000 at rtol = 1e-10) on the
+        # unchanged tree and cost ~10 s per case - not asked
+        tags.append("entries=odeint-only")
+    for m in (() if odeint_only else (None, "lsoda", "ivode") if stiff else METHODS):    # explicit / Adams integrators are not meant for stiff systems
         for fo in (False, True):
             fresh()
             call("integrate2:method=%s:full_output=%s" % (m, fo), lambda: model.integrate2(tg, full_output=fo, method=m), True, grid,
@@ -1340,7 +1498,7 @@ def run_runtime(case):
     # alias a periodic rate that the grid resolves: scipy's odeint then returns x0 with "Integration successful.")
     tl = grid[-1]
     far_enough = abs(tl - t0) > 4 * float(np.spacing(max(abs(tl), abs(t0))))
-    dsc = direct_solver_error(f, x0, t0, [tl], ref[-1:]) if far_enough and not stiff else {"default": 0.0, "1e-10": 0.0}
+    dsc = direct_solver_error(f, x0, t0, [tl], ref[-1:], floor) if far_enough and not stiff else {"default": 0.0, "1e-10": 0.0}
     acc_grid = acc_odeint
     acc_odeint = max(acc_odeint, 20.0 * dsc["default"])
     if acc_odeint != acc_grid:
@@ -1348,7 +1506,11 @@ def run_runtime(case):
     if tl == t0 or far_enough:
         fresh()
         call("integrate:method=odeint:full_output=False", lambda: model.integrate(tl), True, [tl])
-    if dsc["1e-10"] > TOL / 100:
+    if floor < 1.0:
+        acc_ode = max(acc_ode, 20.0 * dsc["1e-10"])
+    if odeint_only:
+        pass
+    elif (dsc["1e-10"] > TOL / 100) if floor >= 1.0 else not (acc_ode <= 1e-3):
         tags.append("scalar-time:solver-inaccurate-at-1e-10:not-judged")
     else:
         fresh()
